@@ -310,7 +310,7 @@ def shrink_case(mod, case, key, pool, budget=120):
 
 
 def write_replay(prop, payload):
-    d = os.path.join(VERIF, "replays", prop)
+    d = os.path.join(os.environ.get("VERIF_REPLAYS_DIR", os.path.join(VERIF, "replays")), prop)
     os.makedirs(d, exist_ok=True)
     h = hashlib.sha1(json.dumps(payload, sort_keys=True).encode()).hexdigest()[:12]
     path = os.path.join(d, h + ".json")
@@ -487,8 +487,9 @@ def main(mod, argv=None):
         ev = {"property_id": prop, "tier": tier, "seed": seed, "level": "proof", "coverage": cov,
               "assumptions": list(getattr(mod, "ASSUMPTIONS", [])), "wall_s": round(time.time() - t0, 1),
               "violations": len(violations)}
-        os.makedirs(os.path.join(VERIF, "evidence"), exist_ok=True)
-        json.dump(ev, open(os.path.join(VERIF, "evidence", prop + ".json"), "w"), indent=1, sort_keys=True)
+        evdir = os.environ.get("VERIF_EVIDENCE_DIR", os.path.join(VERIF, "evidence"))
+        os.makedirs(evdir, exist_ok=True)
+        json.dump(ev, open(os.path.join(evdir, prop + ".json"), "w"), indent=1, sort_keys=True)
         print("%s tier=%s cases=%d distinct_nontrivial=%d disagreements=%d known=%d theorems=%d proofs_ok=%s spot=%d wall=%.0fs"
               % (prop, tier, len(cases), len(distinct), len(disagreements), sum(len(v) for v in known_hits.values()),
                  n_thm, proofs["ok"], spot["n"], time.time() - t0))
